@@ -311,6 +311,10 @@ func wRunCase(o *common.Out, id string, c wCase, r *common.Rand) {
 		if c.pool {
 			opts = append(opts, server.WithPool(32, 256))
 		}
+		if (len(c.ws)+len(c.ops))%2 == 0 {
+			// every other case: a write timeout is configured (generous: it never fires); a frame is still one write
+			opts = append(opts, server.WithWriteTimeout(20*time.Second))
+		}
 		srv := server.NewServer(opts...)
 		srv.AsyncWrite = c.async
 		var sconn net.Conn
